@@ -224,6 +224,10 @@ def r4_renewal_argument(ctx, f, rep):
     # and every datagram of it is answered with TurnUndead (C01-R3 re-run)
     from . import c01
     c01.r3_writers(ctx, f, _Rename(rep, 'C01-R3', 'C18-R4'))
+    # ... and the renewed sender that replaced the stored identity counts as an active sender (apply_update reports
+    # is_active_now unless the update was Lost / FailedCondition): C09-R4
+    from . import c09
+    c09.r4_inactive_payload(ctx, f, _Rename(rep, 'C09-R4', 'C18-R4'))
     # ... and the sender is recorded before anything is decided about it, in every connection state: a defunct instance
     # that only looks the sender up never learns a renewed identity and answers each renewal with another TurnUndead
     hd = f.fn('Foca::handle_data')
